@@ -94,6 +94,8 @@ pub enum ErrKind {
     NotConnected,
     ConnectionAborted,
     Other,
+    /// an error (not a zero-length write) whose kind says "write zero", as some adapters report it
+    WriteZero,
 }
 
 #[derive(Clone, Copy, Debug, Serialize, Deserialize, PartialEq, Eq, Hash)]
